@@ -191,7 +191,8 @@ def get_atom_lines_from_pdb(
             nterm_residue = 'next_residue'
             # the residue that carried the last OXT belongs to the previous model
             old_residue = None
-        if tag == 'TER   ':
+        # a TER record may be written without trailing blanks ("TER")
+        if tag.rstrip() == 'TER':
             nterm_residue = 'next_residue'
             old_residue = None
         if tag in tags:
